@@ -992,9 +992,14 @@ impl ElementRaw {
             // compare the new element to the existing elements
             for (idx, content_item) in self.content.iter().enumerate() {
                 if let ElementContent::Element(subelement) = content_item {
-                    let (_, existing_element_indices) = elemtype
+                    // an existing sub element may not be permitted in this version (files of different versions, content
+                    // copied from another version): it is then located by its definition in any version
+                    let Some((_, existing_element_indices)) = elemtype
                         .find_sub_element(subelement.element_name(), version as u32)
-                        .unwrap();
+                        .or_else(|| elemtype.find_sub_element(subelement.element_name(), u32::MAX))
+                    else {
+                        continue;
+                    };
                     let group_type = elemtype.find_common_group(&new_element_indices, &existing_element_indices);
                     match group_type.content_mode() {
                         ContentMode::Sequence => {
